@@ -77,6 +77,17 @@ pub fn eval_roundtrip(case: &Case) -> Evaluated {
         let c = write_frame(RecordingSink::default(), d, level, &sibling)?.data;
         let p = write_frame(PagedSink::new(5), d, level, &sibling)?.contents();
         let s = write_frame(desert::SizeCalculator::new(), d, level, &sibling)?.size();
+        // through a serialization context, directly and while a chunk buffer is pushed (the way a
+        // field of an evolved record is written)
+        let x = write_frame(desert::SerializationContext::new(Vec::new()), d, level, &sibling)?.into_output();
+        let mut ctx = desert::SerializationContext::new(Vec::new());
+        ctx.push_buffer(Vec::new());
+        let mut ctx = write_frame(ctx, d, level, &sibling)?;
+        let y = ctx.pop_buffer();
+        let leaked = ctx.into_output();
+        if x != a || y != a || !leaked.is_empty() {
+            return Ok((a, vec![], c, p, s));
+        }
         Ok((a, b, c, p, s))
     });
     let mut finding = None;
